@@ -158,7 +158,7 @@ pub fn build(p: P) -> Scenario<Arc<CS>> {
     };
     Scenario {
         name: p.name.to_string(),
-        opts: Opts { stale_reads: p.stale, stale_depth: 3, max_spurious: p.spurious, horizon: 20_000, log_ops: false, log_handler_ops: false, reduce: false, no_discipline: false },
+        opts: Opts { stale_reads: p.stale, stale_depth: 3, max_spurious: p.spurious, horizon: 20_000, log_ops: false, log_handler_ops: false, reduce: false, no_discipline: false, nest_value_t1: 0 },
         signals: vec![libc::SIGUSR1],
         setup: Box::new(setup),
         threads,
@@ -224,9 +224,9 @@ fn check_log(log: &[Ev], _prop: &str) -> Result<u64, String> {
                     let (in_s, in_cf) = inner.remove(&key).unwrap_or((0, 0));
                     let steps = ev.own - own0 - in_s;
                     let cf = ev.cf - cf0 - in_cf;
-                    if ev.tid != 0 && steps > 4 + cf {
+                    if ev.tid != 0 && steps > 5 + cf {
                         return Err(format!(
-                            "C08: {} took {} own steps with {} failed compare-exchanges (bound 4 + failures)",
+                            "C08: {} took {} own steps with {} failed compare-exchanges (bound 5 + failures: 2 loads, 2 CAS, 1 cell access)",
                             if ev.tag == "send_ret" { "send" } else { "recv" },
                             steps,
                             cf
